@@ -249,22 +249,49 @@ def run(repo: Repo, ctx) -> None:
         any('_set_value' in x for x in s_reset)
     ctx.ob('C19.R6', 'Operation.apply:RESET', ok,
            f'RESET arm is {s_reset}', apply_.loc, sample=s_reset[:2])
+    storage_p = apply_.params()[2] if len(apply_.params()) > 2 else 'storage'
+    # the coerced operand of the operation (bound before the opcode chain)
+    operand = {norm(t) for n in walk_no_nested(apply_.node)
+               if isinstance(n, ast.Assign) and isinstance(n.value, ast.Call)
+               and norm(n.value.func) in ('self.coerce_value',
+                                          'self.coerce_global_value')
+               for t in n.targets}
     for m, kind in (('CONFIG_ADD', 'add'), ('CONFIG_REM', 'rem')):
-        st = arm_stmts(m)
-        txts = [norm(n.ast) for n in st]
-        exist_ok = 'exist_setting = storage.get(self.setting_name)' in txts \
-            and 'exist_value = exist_setting.value' in txts and \
-            'exist_value = setting.default' in txts
-        if kind == 'add':
-            nv = [t for t in txts if t.startswith('new_value = ')]
-            op_ok = len(nv) == 1 and '_check_object_set_uniqueness(' in \
-                nv[0] and 'exist_value' in nv[0] and 'value' in nv[0] and \
-                '+' in nv[0] and '-' not in nv[0]
-        else:
-            nv = [t for t in txts if t.startswith('new_value = ')]
-            op_ok = nv == ['new_value = exist_value - {value}']
-        store_ok = 'storage = self._set_value(storage, new_value, ' \
-                   'source=source)' in txts
+        st = [n.ast for n in arm_stmts(m)]
+        # roles: E := storage.get(self.setting_name); X := E.value | default
+        getv = {norm(a.targets[0]) for a in st if isinstance(a, ast.Assign)
+                and norm(a.value) == f'{storage_p}.get(self.setting_name)'}
+        xdefs = {}
+        for a in st:
+            if isinstance(a, ast.Assign) and isinstance(
+                    a.targets[0], ast.Name):
+                xdefs.setdefault(a.targets[0].id, []).append(norm(a.value))
+        exist = [v for v, ds in xdefs.items() if len(ds) == 2 and any(
+            d in {f'{e}.value' for e in getv} for d in ds)
+            and 'setting.default' in ds]
+        exist_ok = bool(getv) and len(exist) == 1
+        # the stored value: second argument of _set_value in this arm
+        stores = [a for a in st if isinstance(a, ast.Assign)
+                  and norm(a.targets[0]) == storage_p
+                  and isinstance(a.value, ast.Call)
+                  and norm(a.value.func) == 'self._set_value']
+        store_ok = len(stores) == 1 and len(stores[0].value.args) >= 2 and \
+            norm(stores[0].value.args[0]) == storage_p and \
+            norm(kwarg(stores[0].value, 'source') or ast.Constant(None)) \
+            == 'source'
+        nv = []
+        op_ok = False
+        if store_ok and exist_ok:
+            nvn = norm(stores[0].value.args[1])
+            nv = xdefs.get(nvn, [nvn])
+            x = exist[0]
+            opnd = sorted(operand)[0] if operand else 'value'
+            if kind == 'add':
+                op_ok = len(nv) == 1 and nv[0].startswith(
+                    '_check_object_set_uniqueness(setting, ') and \
+                    f'list({x}) + [{opnd}]' in nv[0]
+            else:
+                op_ok = nv == [f'{x} - {{{opnd}}}']
         guard_ok = any('not isinstance(setting.type, types.ConfigTypeSpec)'
                        in norm(t.ast) for t in g.nodes if t.kind == 'test'
                        and t.id in arm_nodes(m))
